@@ -102,13 +102,6 @@ Proof. intros src st [|k ts] [_ [H _]]; simpl in *; [exact H|exact (proj1 H)]. Q
 Lemma at_cur : forall src st k ts, At src st (k :: ts) -> tok_matches src (pcur st) k.
 Proof. intros src st k ts [_ [H _]]. exact H. Qed.
 
-Lemma nnn_step : forall n l tok l',
-  lex_next l = LexTok tok l' -> ttag tok <> TNewline ->
-  next_non_newline (S n) l false = (LexTok tok l', false).
-Proof.
-  intros n l tok l' H Hn. simpl. rewrite H. destruct (ttag tok); try reflexivity. congruence.
-Qed.
-
 Lemma advance_at : forall src st k ts,
   At src st (k :: ts) ->
   exists st', advance st = POk (pcur st') st' /\ At src st' ts /\ pprev st' = pcur st.
@@ -116,18 +109,17 @@ Proof.
   intros src st k ts [Hsrc [Hcur [Hlex Hwf]]]. simpl in Hlex. simpl in Hwf.
   apply andb_true_iff in Hwf. destruct Hwf as [Hk Hwf].
   destruct ts as [|k' ts'].
-  - destruct (lex_next_at_eof src (plex st) Hlex) as [tok [l' [E [Htag Hl']]]].
-    exists (mkP (psrc st) l' tok (pcur st) false (pinfn st) (pinloop st)).
+  - destruct (nnn_at_eof src (plex st) Hlex) as [tok [l' [saw [E [Htag Hl']]]]].
+    exists (mkP (psrc st) l' tok (pcur st) saw (pinfn st) (pinloop st)).
     split; [|split].
-    + unfold advance. rewrite (nnn_step _ _ _ _ E) by (rewrite Htag; discriminate). reflexivity.
+    + unfold advance. rewrite E. reflexivity.
     + split; [exact Hsrc|]. split; [exact Htag|]. split; [exact Hl'|reflexivity].
     + reflexivity.
   - simpl in Hwf. apply andb_true_iff in Hwf. destruct Hwf as [Hk' Hwf'].
-    destruct (lex_next_at src (plex st) k' ts' Hlex Hk') as [tok [l' [E [Hm Hl']]]].
-    exists (mkP (psrc st) l' tok (pcur st) false (pinfn st) (pinloop st)).
+    destruct (nnn_at src (plex st) k' ts' Hlex Hk') as [tok [l' [saw [E [Hm Hl']]]]].
+    exists (mkP (psrc st) l' tok (pcur st) saw (pinfn st) (pinloop st)).
     split; [|split].
-    + unfold advance. rewrite (nnn_step _ _ _ _ E); [reflexivity|].
-      rewrite (proj1 Hm). apply wf_tok_not_newline; auto.
+    + unfold advance. rewrite E. reflexivity.
     + split; [exact Hsrc|]. split; [exact Hm|]. split; [exact Hl'|].
       simpl. now rewrite Hk', Hwf'.
     + reflexivity.
@@ -138,10 +130,10 @@ Lemma advance_at_eof : forall src st,
   exists st', advance st = POk (pcur st') st' /\ At src st' [] /\ pprev st' = pcur st.
 Proof.
   intros src st [Hsrc [Hcur [Hlex Hwf]]]. simpl in Hlex.
-  destruct (lex_next_at_eof src (plex st) Hlex) as [tok [l' [E [Htag Hl']]]].
-  exists (mkP (psrc st) l' tok (pcur st) false (pinfn st) (pinloop st)).
+  destruct (nnn_at_eof src (plex st) Hlex) as [tok [l' [saw [E [Htag Hl']]]]].
+  exists (mkP (psrc st) l' tok (pcur st) saw (pinfn st) (pinloop st)).
   split; [|split].
-  - unfold advance. rewrite (nnn_step _ _ _ _ E) by (rewrite Htag; discriminate). reflexivity.
+  - unfold advance. rewrite E. reflexivity.
   - split; [exact Hsrc|]. split; [exact Htag|]. split; [exact Hl'|reflexivity].
   - reflexivity.
 Qed.
@@ -1163,27 +1155,27 @@ Proof.
   unfold pbind. rewrite E. reflexivity.
 Qed.
 
-Lemma lay_len : forall trail its first, gaps_ok first its = true -> length its <= length (lay its trail).
+Lemma lay_len : forall trail its first, Gaps first its -> length its <= length (lay its trail).
 Proof.
   intro trail. induction its as [|[ws k] r IH]; intros first H; [simpl; lia|].
-  cbn [gaps_ok] in H. repeat (apply andb_true_iff in H; destruct H as [H ?]).
-  cbn [lay length]. rewrite !app_length. specialize (IH false H0).
-  pose proof (spell_nonempty k H1). lia.
+  cbn [Gaps] in H. destruct H as [_ [_ [Hk Hr]]].
+  cbn [lay length]. rewrite !app_length. specialize (IH false Hr).
+  pose proof (spell_nonempty k Hk). lia.
 Qed.
 
-Lemma gaps_wf : forall its first, gaps_ok first its = true -> forallb wf_tok (map snd its) = true.
+Lemma gaps_wf : forall its first, Gaps first its -> forallb wf_tok (map snd its) = true.
 Proof.
   induction its as [|[ws k] r IH]; intros first H; [reflexivity|].
-  cbn [gaps_ok] in H. repeat (apply andb_true_iff in H; destruct H as [H ?]).
-  cbn [map snd forallb]. rewrite H1. apply (IH false H0).
+  cbn [Gaps] in H. destruct H as [_ [_ [Hk Hr]]].
+  cbn [map snd forallb]. rewrite Hk. apply (IH false Hr).
 Qed.
 
 (* every printing of a well-formed expression -- with any set of forced parentheses, laid
-   out with any horizontal white space between the tokens -- parses, with the fuel the
-   model grants, to a tree whose position-free form is the expression (compound
-   assignments desugared, as the parser does) *)
-Theorem parse_print_layout : forall force e items trail, wf_sexpr e = true ->
-  map snd items = print force 1 e -> gaps_ok true items = true -> forallb is_hws trail = true ->
+   out with any gaps between the tokens (spaces, tabs, CRs, line ends, '#' comments up to a
+   line end) -- parses, with the fuel the model grants, to a tree whose position-free form
+   is the expression (compound assignments desugared, as the parser does) *)
+Theorem parse_print_gaps : forall force e items trail, wf_sexpr e = true ->
+  map snd items = print force 1 e -> Gaps true items -> is_gap trail ->
   exists e' st', parse_expression_src (lay items trail) = POk e' st' /\
                  strip (lay items trail) e' = Some (desugar e).
 Proof.
@@ -1194,15 +1186,12 @@ Proof.
   rewrite app_nil_r in HM. rewrite <- Hmap in HM. rewrite map_length in HM.
   destruct items as [|[ws k] r].
   { destruct (print_hd force e Hwf 1) as [k [tl [Ek _]]]. rewrite Ek in Hmap. discriminate Hmap. }
-  destruct (lex_next_first_lay ws k r trail Hg Htrail) as [tok [l' [El [Hm Hl]]]].
+  destruct (nnn_first_lay ws k r trail Hg Htrail) as [tok [l' [saw [El [Hm Hl]]]]].
   set (src := lay ((ws, k) :: r) trail) in *.
-  set (st1 := mkP src l' tok zero_token false false false).
-  assert (Hk : wf_tok k = true).
-  { cbn [map snd forallb] in Hts. apply andb_true_iff in Hts. tauto. }
+  set (st1 := mkP src l' tok zero_token saw false false).
   assert (Eadv : advance (new_parser src) = POk tok st1).
-  { unfold advance, new_parser. cbn [plex psrc pcur pinfn pinloop].
-    rewrite (nnn_step _ _ _ _ El); [reflexivity|].
-    rewrite (proj1 Hm). now apply wf_tok_not_newline. }
+  { unfold advance, new_parser, new_lexer in *. cbn [plex psrc pcur pinfn pinloop lrest].
+    rewrite El. reflexivity. }
   assert (HA1 : At src st1 (map snd ((ws, k) :: r))).
   { split; [reflexivity|]. split; [exact Hm|]. split; [exact Hl|]. exact Hts. }
   destruct (HM st1 Hwf (le_n 1)) as [e' [st2 [Hs [HA2 Hpar]]]];
@@ -1214,6 +1203,16 @@ Proof.
   rewrite Hpar.
   - rewrite E3. reflexivity.
   - unfold parse_fuel. lia.
+Qed.
+
+(* horizontal white space only (decidable side conditions) *)
+Theorem parse_print_layout : forall force e items trail, wf_sexpr e = true ->
+  map snd items = print force 1 e -> gaps_ok true items = true -> forallb is_hws trail = true ->
+  exists e' st', parse_expression_src (lay items trail) = POk e' st' /\
+                 strip (lay items trail) e' = Some (desugar e).
+Proof.
+  intros force e items trail Hwf Hmap Hg Ht.
+  apply (parse_print_gaps force e); auto using gaps_ok_Gaps, gap_ws.
 Qed.
 
 (* the canonical one-space layout *)
@@ -1290,6 +1289,20 @@ Theorem expr_layout_insensitive : forall force e items trail, wf_sexpr e = true 
 Proof.
   intros force e items trail Hwf Hmap Hg Ht.
   destruct (parse_print_layout force e items trail Hwf Hmap Hg Ht) as [e1 [st1 [P1 S1]]].
+  destruct (parse_print force e Hwf) as [e2 [st2 [P2 S2]]].
+  exists e1, st1, e2, st2. repeat split; auto. now rewrite S1, S2.
+Qed.
+
+(* and with line ends and comments in the gaps *)
+Theorem expr_gaps_insensitive : forall force e items trail, wf_sexpr e = true ->
+  map snd items = print force 1 e -> Gaps true items -> is_gap trail ->
+  exists e1 st1 e2 st2,
+    parse_expression_src (lay items trail) = POk e1 st1 /\
+    parse_expression_src (text_of (print force 1 e)) = POk e2 st2 /\
+    strip (lay items trail) e1 = strip (text_of (print force 1 e)) e2.
+Proof.
+  intros force e items trail Hwf Hmap Hg Ht.
+  destruct (parse_print_gaps force e items trail Hwf Hmap Hg Ht) as [e1 [st1 [P1 S1]]].
   destruct (parse_print force e Hwf) as [e2 [st2 [P2 S2]]].
   exists e1, st1, e2, st2. repeat split; auto. now rewrite S1, S2.
 Qed.
